@@ -53,6 +53,7 @@ structure Sub where
   resp         : Option Resp := none    -- responseLastEventID (buffered 1)
   received     : List Upd := []         -- what the consumer has taken so far
   enq          : List Upd := []         -- ghost: every successful channel send, in order
+  joinedAt     : Option Nat := none     -- ghost: number of accepted updates when the subscriber was indexed
   deriving Repr
 
 def Sub.matches (s : Sub) (u : Upd) : Bool := s.topics.contains u.topic
@@ -76,6 +77,7 @@ structure Tr where
   readers     : Nat := 0
   size        : Nat := 0                -- retention; cleanup runs on every persist
   accepted    : List Upd := []          -- ghost: persisted (Bolt) / entered fan-out (local), in order
+  walked      : List Nat := []          -- ghost: the subscribers Close found in the index
   deriving Repr
 
 inductive Op where
@@ -358,10 +360,12 @@ def step (σ : Sys) (i : Nat) : StepOut :=
     | 2 =>
       match t.kind with
       | .local => -- the transport lock is held until AddSubscriber returns (defer)
+        let σ := setSub σ s fun b => { b with joinedAt := some t.accepted.length }
         let σ' := setTr σ fun t => { t with index := t.index ++ [s] }
         if sb.req != .none then cont σ' (.tAdd s 4 0 [] .earliest :: rest)
         else cont σ' (.sReady s 0 [] :: .tAdd s 7 0 [] .earliest :: rest)
       | .bolt =>
+        let σ := setSub σ s fun b => { b with joinedAt := some t.accepted.length }
         let σ' := setTr σ fun t => { t with index := t.index ++ [s], writer := none }
         if sb.req != .none then cont σ' (.tAdd s 3 t.lastSeq [] .earliest :: rest)
         else cont σ' (.sReady s 0 [] :: .tAdd s 7 0 [] .earliest :: rest)
@@ -392,13 +396,13 @@ def step (σ : Sys) (i : Nat) : StepOut :=
       else cont (setTr σ fun t => { t with onceRunning := some i }) (.tClose 1 [] :: rest)
     | .bolt, 1 => cont (setTr σ fun t => { t with closedCh := true }) (.tClose 2 [] :: rest)
     | .bolt, 2 => if t.writer.isSome then wait else cont (setTr σ fun t => { t with writer := some i }) (.tClose 3 [] :: rest)
-    | .bolt, 3 => cont σ (.tClose 9 t.index :: rest)
+    | .bolt, 3 => cont (setTr σ fun t => { t with walked := t.index }) (.tClose 9 t.index :: rest)
     | .bolt, _ =>
       if t.readers > 0 then wait
       else cont (setTr σ fun t => { t with dbClosed := true, writer := none, onceRunning := none, onceDone := true }) rest none (some .ok)
     | .local, 1 => if t.writer.isSome then wait else cont (setTr σ fun t => { t with writer := some i }) (.tClose 2 [] :: rest)
     | .local, 2 => cont (setTr σ fun t => { t with closedCh := true }) (.tClose 3 [] :: rest)
-    | .local, _ => cont σ (.tClose 9 t.index :: rest)
+    | .local, _ => cont (setTr σ fun t => { t with walked := t.index }) (.tClose 9 t.index :: rest)
   -- ---------------------------------------------------------------- GetSubscribers / consumer
   | .tList => if σ.tr.writer.isSome then wait else cont σ rest none (some (.listed σ.tr.lastId σ.tr.index))
   | .uRecv s =>
@@ -420,5 +424,37 @@ def restart (σ : Sys) (subs : List Sub) (ops : List Op) : Sys :=
             lastId := (match σ.tr.db.getLast? with | some e => .id e.2.id | none => .earliest),
             accepted := σ.tr.accepted },
     subs := subs, threads := ops.map (fun o => { op := o, stack := o.start }) }
+
+/-! ### vocabulary for the theorems -/
+
+/-- A subscriber as `NewLocalSubscriber` creates it. -/
+def Sub.fresh (topics : List Nat) (req : Req) (cap : Nat) : Sub := { topics, req, cap }
+
+/-- Configurations the harness (and the hub) produce: fresh subscribers, each registered at most once. -/
+structure WellFormed (subs : List Sub) (ops : List Op) : Prop where
+  fresh : ∀ b ∈ subs, ∃ topics req cap, b = Sub.fresh topics req cap
+  addOnce : (ops.filterMap (fun o => match o with | .add s => some s | _ => none)).Nodup
+  inRange : ∀ o ∈ ops, match o with
+    | .add s | .remove s | .disconnect s | .recv s => s < subs.length
+    | _ => True
+
+def Thread.finished (t : Thread) : Bool := t.stack.isEmpty
+def Sys.allDone (σ : Sys) : Bool := σ.threads.all Thread.finished
+
+/-- Every state reachable by some schedule from an initial configuration. -/
+def reach (flags : Flags) (kind : Kind) (size : Nat) (subs : List Sub) (ops : List Op) (sched : List Nat) : Sys :=
+  run (Sys.init flags kind size subs ops) sched
+
+/-- The stored updates a reconnecting subscriber is owed, given what was accepted before it was
+    indexed (`old`): everything (earliest), what follows the requested id, or nothing (unknown / none). -/
+def owed (old : List Upd) : Req → List Upd
+  | .none => []
+  | .earliest => old
+  | .id n => match old.dropWhile (fun u => u.id != n) with | [] => [] | _ :: rest => rest
+
+/-- What a subscriber indexed after `k` accepted updates would receive had it stayed connected and
+    kept up: the owed part of the first `k`, then every later one — those it matches. -/
+def ideal (s : Sub) (accepted : List Upd) (k : Nat) : List Upd :=
+  (owed (accepted.take k) s.req ++ accepted.drop k).filter s.matches
 
 end Mercure.Sys
